@@ -245,8 +245,8 @@ func primCases(r *rec, g *te.Gen, tier string) {
 				run("octstr", off, aper.OctetStringType, tag, func(f reflect.Value) { f.SetBytes(ev.Bytes(g.R, nn)) })
 				run("bitstr", off, aper.BitStringType, tag, func(f reflect.Value) {
 					b := ev.Bytes(g.R, (nn+7)/8)
-					if nn%8 != 0 {
-						b[len(b)-1] &= 0xff << uint(8-nn%8)
+					if nn%8 != 0 && g.R.Intn(3) != 0 {
+						b[len(b)-1] &= 0xff << uint(8-nn%8) // otherwise: unused bits behind the value are left random
 					}
 					f.Set(reflect.ValueOf(aper.BitString{Bytes: b, BitLength: uint64(nn)}))
 				})
